@@ -195,6 +195,8 @@ pub enum Delivery {
 pub struct ReadFault {
     pub fail_at: usize,
     pub kind: io::ErrorKind,
+    /// the error is returned once; afterwards the stream is at its end (a connection reset)
+    pub once: bool,
 }
 
 pub struct InstrReader {
@@ -243,7 +245,7 @@ impl Read for InstrReader {
                 // a broken descriptor keeps failing; after 64 failures pretend EOF so that code
                 // which (wrongly) retries for ever still terminates and is judged by its result
                 self.fault_hits += 1;
-                if self.fault_hits > 64 {
+                if self.fault_hits > 64 || (f.once && self.fault_hits > 1) {
                     return Ok(0);
                 }
                 return Err(io::Error::new(f.kind, "injected read fault"));
